@@ -48,6 +48,7 @@ struct Prog {
     log: Vec<String>,
     refused: Option<String>,
     revisits: u32,
+    refused_attempts: u32,
 }
 
 impl Prog {
@@ -96,12 +97,27 @@ async fn fill_role(ed: &mut RepositoryEditor, d: &DelegSpec, r: &mut Rng, p: &mu
     }
     p.op(format!("add_target x{} in {:?}", d.targets.len(), d.name));
     for c in &d.children {
-        ed.delegate_role(&c.name, &sources(&c.keys), pathset(&c.paths), nz(c.threshold), far(), nz(c.version))
+        // created at version 1; the role's own editing session sets the version of the model (unless
+        // the role is going to be left exactly as created)
+        let as_created = c.threshold as usize > c.keys.len() && skip_resign_undersigned;
+        ed.delegate_role(&c.name, &sources(&c.keys), pathset(&c.paths), nz(c.threshold), far(), nz(if as_created { c.version } else { 1 }))
             .await
             .map_err(|e| format!("delegate_role({:?}): {}", c.name, client::full_error(&e)))?;
         p.op(format!("delegate_role({:?}, keys {:?}, threshold {}) in {:?}", c.name, c.keys, c.threshold, d.name));
     }
     let signers = d.signers.clone().unwrap_or_else(|| d.keys.clone());
+    // detour: a first signing attempt with a key that is not authorised for the role; the editor
+    // refuses, and the pending edits must still be there for the real attempt
+    if r.chance(1, 3) {
+        let foreign = (0..20usize).rev().find(|k| !d.keys.contains(k)).unwrap();
+        match ed.sign_targets_editor(&sources(&[foreign])).await {
+            Err(_) => {
+                p.op(format!("sign_targets_editor({:?}, foreign key {foreign}) -> refused", d.name));
+                p.refused_attempts += 1;
+            }
+            Ok(_) => p.op(format!("sign_targets_editor({:?}, foreign key {foreign}) -> accepted (!)", d.name)),
+        }
+    }
     ed.sign_targets_editor(&sources(&signers))
         .await
         .map_err(|e| format!("sign_targets_editor({:?} with keys {:?}): {}", d.name, signers, client::full_error(&e)))?;
@@ -161,7 +177,8 @@ async fn run_program(spec: &RepoSpec, dir: &Path, r: &mut Rng, p: &mut Prog, pub
     ed.targets_version(nz(spec.tg_version)).map_err(|e| e.to_string())?;
     ed.targets_expires(far()).map_err(|e| e.to_string())?;
     for d in &spec.delegations {
-        ed.delegate_role(&d.name, &sources(&d.keys), pathset(&d.paths), nz(d.threshold), far(), nz(d.version))
+        let as_created = d.threshold as usize > d.keys.len() && skip_resign_undersigned;
+        ed.delegate_role(&d.name, &sources(&d.keys), pathset(&d.paths), nz(d.threshold), far(), nz(if as_created { d.version } else { 1 }))
             .await
             .map_err(|e| format!("delegate_role({:?}): {}", d.name, client::full_error(&e)))?;
         p.op(format!("delegate_role({:?}, keys {:?}, threshold {})", d.name, d.keys, d.threshold));
@@ -389,7 +406,7 @@ fn run_case(w: &mut Worker, i: u64) -> CaseOut {
     let publish = if r.bool() { Publish::Copy } else { Publish::Link };
     let dir = w.case_dir();
     let wd = client::watchdog(w.cfg.tier);
-    let mut p = Prog { log: vec![], refused: None, revisits: 0 };
+    let mut p = Prog { log: vec![], refused: None, revisits: 0, refused_attempts: 0 };
     let final_keys: Vec<usize> = if snap_dup {
         vec![0, 1, 2, 2, 3]
     } else if snap2 {
@@ -422,6 +439,12 @@ fn run_case(w: &mut Worker, i: u64) -> CaseOut {
         }
         Ok(Ok(wr)) => {
             out.h("editor-accepted");
+            if p.refused_attempts > 0 {
+                if std::env::var("C10_DEBUG").is_ok() {
+                    println!("DEBUG case {i}: {:?}", p.log);
+                }
+                out.h("role-signing-refused-then-retried");
+            }
             if p.revisits > 0 {
                 out.h("role-revisited:replace-then-remove");
             }
@@ -782,7 +805,7 @@ fn cross_party(w: &mut Worker, spec: &RepoSpec, d: &DelegSpec, wr: &Written, rep
 pub fn run(cfg: &Cfg) -> i32 {
     let start = Instant::now();
     let _ = crate::keys::pool();
-    let n = cfg.tier.pick(600u64, 60_000);
+    let n = cfg.tier.pick(2_000u64, 60_000);
     let budget = cfg.tier.pick(Duration::from_secs(500), Duration::from_secs(2800));
     let ev = par_run(cfg, n, budget, |w, i| Some(run_case(w, i)));
     let mut required: Vec<String> = vec![
